@@ -538,3 +538,67 @@ def r10(cx):
                      "`%s` slices `tables[first..last]` with both indexes found by independent searches over the CALLER's range: for a range whose start lies above its end "
                      "(tx.range(\"m\", \"c\")) first > last and the slice panics instead of the cursor being empty" % b.id)
     cx.floor("table-window computations (first/last overlapping table)", n, 1)
+
+
+@rule("C09", "C09.R11", "k-way merges: the count of live sources follows the LAST positioning of each source")
+def r11(cx):
+    """`active_count` is what `find_winner` / `advance_winner` use to report `exhausted`; a source that is positioned on an
+    entry but not counted makes the cursor stop early.  Each positioning of a child (`seek`, `seek_last`, `next`, `prev`,
+    ...) returns whether it landed on an entry: in every function that updates the count, that answer must reach a branch
+    (directly, or through a later `valid()` of the child) before the count is touched -- a positioning whose result is
+    dropped, followed by a count decision taken from an OLDER answer, loses the source."""
+    f = cx.f
+    n = 0
+    for b in f.scan_bodies():
+        ty = (b.self_ty or "").split("<")[0].split("::")[-1]
+        if ty not in ("KMergeIterator", "MergingIterator") or b.kind != "method":
+            continue
+        # the count field = the integer-typed field of the merge struct (whatever its name)
+        ad = f.adt(ty)
+        vs = ad["variants"][0]["fields"] if isinstance(ad["variants"], list) else ad["variants"]["fields"]
+        counters = {x[0] for x in vs if x[1] in ("usize", "u32", "u64", "i32", "isize")}
+        cw = set()
+        for i, j, lhs, rv, line in b.assigns():
+            if i in b.live and any(isinstance(p_, list) and p_[0] == "f" and p_[2] in counters for p_ in lhs[1:]):
+                cw.add(i)
+        if not cw:
+            continue
+        moves = [c for c in b.calls if c.bb in b.live and c.primary.split("::")[-1] in LSM_MOVES and "LSMIterator" in (c.callee.get("trait") or "")]
+        valids = {c.bb for c in b.calls if c.bb in b.live and c.primary.split("::")[-1] == "valid" and "LSMIterator" in (c.callee.get("trait") or "")}
+        for c in moves:
+            n += 1
+            used = _try_bool(b, c) is not None
+            if not used:
+                # is the payload stored in a local that is branched on later (`positioned = iter.prev()?`)?
+                for x in b.calls:
+                    if x.bb in b.live and x.primary.endswith("Try>::branch") and x.args and x.args[0][0] in ("c", "m") and x.args[0][1][0] == c.dest[0]:
+                        for i, j, lhs, rv, _ in b.assigns():
+                            if rv[0] == "use" and rv[1][0] in ("c", "m") and rv[1][1][0] == x.dest[0] and len(lhs) == 1 and b.local_ty(lhs[0]) == "bool":
+                                # a plain store into a user variable that some switch reads
+                                for blk in b.live:
+                                    t = b.blocks[blk]["t"]
+                                    if t[0] == "switch" and t[1][0] in ("c", "m") and lhs[0] in {t[1][1][0]} | {q for q in _moved_from(b, t[1][1][0])}:
+                                        used = True
+            if used:
+                cx.ok("`%s`: the answer of `%s` is branched on" % (b.id, c.primary.split("::")[-1]), c.where())
+                continue
+            r = b.reachable_after([c.bb], avoid=valids)
+            stale = sorted(x for x in cw if x in r)
+            cx.check(not stale, "`%s`: after `%s` (answer dropped) the source is re-examined before the count changes" % (b.id, c.primary.split("::")[-1]),
+                     "source-count-stale|%s|%s" % (b.name, c.primary.split("::")[-1]), c.where(),
+                     "`%s` positions a child with `%s` and drops the answer, then decides `active_count` from an older flag: a child that this call put on an entry is not "
+                     "counted, `find_winner` reports the merge exhausted, and the cursor ends while that source still holds live keys below the turning point" % (
+                         b.id, c.primary.split("::")[-1]))
+    cx.floor("child positioning calls in count-maintaining merge functions", n, 12)
+
+
+def _moved_from(b, l):
+    """locals whose value is (transitively) moved / copied into `l`"""
+    res, ch = {l}, True
+    while ch:
+        ch = False
+        for i, j, lhs, rv, _ in b.assigns():
+            if len(lhs) == 1 and lhs[0] in res and rv[0] == "use" and rv[1][0] in ("c", "m") and len(rv[1][1]) == 1 and rv[1][1][0] not in res:
+                res.add(rv[1][1][0])
+                ch = True
+    return res
